@@ -16,6 +16,7 @@ import PyodaModel.Prelude
 import PyodaModel.Text.Numeric
 import PyodaModel.Text.Iso
 import PyodaModel.Text.PyIso
+import PyodaModel.Text.PatHandle
 
 namespace Pyoda.Text
 
@@ -119,6 +120,6 @@ def handle (toks : List String) : Option String :=
   | ["pyiso.offset", s] => do
       let s ← parseInt? s
       some (encodeText (pyOffsetIso s))
-  | _ => none
+  | _ => handlePat toks
 
 end Pyoda.Text
